@@ -24,9 +24,11 @@ class PipeSocket(object):
         self.requests = []
         self.responses = []
         self.escaped = []
+        self.log = []                 # socket events in order (TraceClient.tla)
 
     def sendall(self, data):
         data = bytes(data)
+        self.log.append({"e": "send"})
         self.requests.append(data)
         if self.responder is not None:
             resp = self.responder(data)
@@ -45,6 +47,7 @@ class PipeSocket(object):
 
     def recv(self, n):
         if self.pos >= len(self.out):
+            self.log.append({"e": "recv", "n": min(int(n), 2 ** 30), "k": 0})
             return b""
         k = n
         if self.plan:
@@ -55,6 +58,7 @@ class PipeSocket(object):
                 self.plan[0] -= k
         chunk = self.out[self.pos:self.pos + k]
         self.pos += len(chunk)
+        self.log.append({"e": "recv", "n": min(int(n), 2 ** 30), "k": len(chunk)})
         return chunk
 
     def close(self):
